@@ -148,12 +148,12 @@ def r2(ctx):
     nw = ctx.body(D + 'new')
     rvn = ret_values(nw)
     from analysis.reduce import reduce_of
-    from analysis.seq import ITEM
+    from analysis.seq import ITEM, unhash as _unhash
     ok = len(rvn) == 1 and rvn[0][0][0] == 'agg' and match(core(agg_field(ctx.facts, rvn[0][0], 'inner')), ('arg', 1, ANY))
     if ok:
         rd = reduce_of(ctx.facts, nw, agg_field(ctx.facts, rvn[0][0], 'freq_sum'))
         ok = rd is not None and rd.op == 'add' and rd.init is not None and match(core(rd.init), Const(0)) and len(rd.segs) == 1 and rd.segs[0].kind == 'each' and \
-            not rd.segs[0].conds and match(core(rd.segs[0].src), Call('HashMap::values', ('arg', 1, ANY))) and core(rd.segs[0].elem) == ITEM
+            not rd.segs[0].conds and match(core(_unhash(rd.segs[0].src)), Call('HashMap::values', ('arg', 1, ANY))) and core(rd.segs[0].elem) == ITEM
     ctx.require(ok, nw, 'freq-sum', 'freq_sum = sum of the kept frequencies', None)
 
 
@@ -370,3 +370,113 @@ def r9(ctx):
     from rules import c12
     c12.r1(ctx)
     c12.r2(ctx)
+
+
+def normalize_total(ctx):
+    """unicode::normalize always normalises: every value it returns comes out of nfc()/nfd()/nfkc()/nfkd() (directly or per grapheme cluster
+    through the recursive call); the input may be handed back unchanged only where a quick check answered IsNormalized::Yes -- `Maybe`
+    means "run the full normalisation" (decomposed sequences such as e + U+0301 answer Maybe)"""
+    from rules.common import is_variant_at
+    b = ctx.body('unicode::normalize')
+    rv = ret_values(b)
+    if not rv:
+        raise AnchorMissing('return values of unicode::normalize')
+    NF = Pred(lambda u: isinstance(u, tuple) and u and u[0] == 'call' and re.search(r'::(nfc|nfd|nfkc|nfkd)$|unicode::normalize$', u[1]))
+    n = 0
+    from analysis.alts import expand as _expand, flatten as _flatten
+    rv2 = []
+    for v, blk in rv:
+        # a result chosen on exclusive branches (the arms of a spliced helper): every alternative on its own
+        al = _flatten(_expand(ctx.facts, b, nosite(v))) if core(v)[0] in ('phi', 'var') else []
+        rv2 += [(a_.value, blk) for a_ in al] if len(al) > 1 else [(v, blk)]
+    for v, blk in rv2:
+        n += 1
+        iv = init_value(b, v)
+        done = has(iv, NF) or any(has(core(init_value(c_, x)), NF) or has(x, NF) for c_ in closures_in(ctx, b) for x, _ in ret_values(c_)
+                                   if has(iv, Pred(lambda u: isinstance(u, tuple) and u and u[0] == 'agg' and u[1] == 'closure' and u[2] == c_.path)))
+        if not done:
+            # the result assembled piece by piece (a loop pushing the normalised clusters)
+            from analysis.seq import seq_of
+            segs = seq_of(ctx.facts, b, v)
+            done = bool(segs) and all(sg.kind in ('each', 'nest', 'one') and not sg.conds and
+                                      all(leaf.elem is not None and has(leaf.elem, NF) for leaf in sg.flat()) for sg in segs)
+        if done:
+            ctx.ok(b, 'normalize: the value returned at line %d is normalised' % b.blocks[blk].term.span['line'], b.blocks[blk].term.span)
+            continue
+        yes = is_variant_at(b, blk, 'Yes')
+        ctx.require(bool(yes), b, 'identity-only-if-normalised', 'the input is returned unchanged only under IsNormalized::Yes',
+                    'unicode::normalize returns `%s` (line %d) without normalising, and not under a quick check that answered Yes: text in a form the quick check '
+                    'calls Maybe (base letter + combining mark) stays unnormalised, so equal words get different dictionary keys' % (
+                        show_in(b, v)[:60], b.blocks[blk].term.span['line']), b.blocks[blk].term.span)
+    return n
+
+
+@rule('C20', 'R-C20-10', 'prerequisite (words are counted in normal form)',
+      'unicode::normalize, through which Dictionary::create / get / contains / get_closest bring every word to NFKC, always normalises '
+      '(an unchanged return only under IsNormalized::Yes)')
+def r10(ctx):
+    normalize_total(ctx)
+
+
+@rule('C20', 'R-C20-11', 'prerequisite (lines are cleaned over one definition of "character")',
+      'text::clean, applied to every line before it is normalised and split, keeps every non-whitespace character in order (R-C11-1, R-C11-2 '
+      're-evaluated) over the shared CharString segmentation (R-C11-6)')
+def r11(ctx):
+    from rules import c11
+    c11.r1(ctx)
+    c11.r2(ctx)
+    c11.charstring_primitive(ctx)
+
+
+@rule('C20', 'R-C20-12', 'T1 ORDER (word splitting)',
+      'text::split_words yields one entry per whitespace-separated word, in order and without a filter, and its word parts are ALL regex matches '
+      'inside that word with their start offsets (no take / skip / filter / dedup): a dropped word or part is a frequency that is not counted')
+def r12(ctx):
+    from analysis.seq import seq_of, seq_of_iter, ITEM
+    b = ctx.body('text::split_words')
+    rv = ret_values(b)
+    if len(rv) != 1:
+        raise AnchorMissing('single result of text::split_words')
+    segs = seq_of(ctx.facts, b, rv[0][0])
+    if segs is None:
+        raise AnchorMissing('text::split_words: the result as a sequence')
+    ok = len(segs) == 1 and segs[0].kind == 'each' and not segs[0].conds and match(core(segs[0].src), Call('str::split_whitespace', ('arg', 1, ANY)))
+    ctx.require(ok, b, 'every-word', 'split_words: one entry per element of s.split_whitespace()', 'split_words builds %s' % [repr(x)[:160] for x in segs])
+    if not ok:
+        return
+    e = peel(segs[0].elem)
+    ok = e[0] == 'agg' and e[1] == 'tuple' and len(e[3]) == 2 and core(e[3][0]) == ITEM
+    ctx.require(ok, b, 'word-entry', 'split_words: the entry is (word, parts)', 'the entry is %s' % show_in(b, e)[:160])
+    # the parts: inside the per-word closure, collect(map(find_iter(re, word), |m| (m.as_str(), m.start()))) and Some(parts) iff non-empty
+    clos = closures_in(ctx, b)
+    found = 0
+    for c in clos:
+        for t in c.calls(r'Regex::find_iter$'):
+            found += 1
+            ctx.require(match(core(sym(c, t.args[1])), ('arg', 2, ANY)), c, 'parts-of-the-word', 'the parts are searched in the word itself',
+                        'find_iter runs over %s' % show_in(c, sym(c, t.args[1]))[:80], t.span)
+            # every consumer between find_iter and the collect is a map (no filter / take / skip / step_by)
+            bad = [u for u in c.calls(r'Iterator::(filter|filter_map|take|skip|step_by|take_while|skip_while|rev|dedup\w*)$|Itertools::(unique|dedup)\w*$|Vec::(truncate|dedup\w*|retain|pop|remove|drain)$')]
+            ctx.require(not bad, c, 'all-parts', 'every match is kept as a part',
+                        'the parts of a word pass through `%s` (line %d): some matches are not counted' % ((bad[0].callee_res() or '').rsplit('::', 1)[-1] if bad else '', bad[0].span['line'] if bad else 0),
+                        bad[0].span if bad else t.span)
+        from analysis.alts import expand as _ex, flatten as _fl
+        for v, blk in ret_values(c):
+            for a_ in _fl(_ex(ctx.facts, c, nosite(v))):
+                av = peel(a_.value)
+                if not (av[0] == 'agg' and av[1] == 'tuple' and len(av[3]) == 2):
+                    continue
+                second = peel(av[3][1])
+                isnone = second[0] == 'agg' and second[1] == 'adt' and second[2].endswith('Option::None')
+                issome = second[0] == 'agg' and second[1] == 'adt' and second[2].endswith('Option::Some')
+                emp = [pol for tt, pol in a_.atoms if core(tt)[0] == 'call' and core(tt)[1].rsplit('::', 1)[-1] == 'is_empty']
+                if isnone:
+                    ctx.require(emp == [True] or (len(set(emp)) == 1 and emp[0] is True), c, 'none-only-without-parts', 'a word gets None only when it has no part',
+                                'a word gets None under %s' % [('' if p_ else '!') + show_in(c, t_)[:60] for t_, p_ in a_.atoms], c.blocks[blk].term.span)
+                elif issome:
+                    ctx.require(len(set(emp)) == 1 and emp[0] is False, c, 'some-iff-parts', 'a word with parts gets Some(parts)',
+                                'a word gets Some under %s' % [('' if p_ else '!') + show_in(c, t_)[:60] for t_, p_ in a_.atoms], c.blocks[blk].term.span)
+    if found != 1:
+        raise AnchorMissing('text::split_words: the find_iter over the word (found %d)' % found)
+    res = [t for t in b.calls(r'Regex::new$')]
+    ctx.require(len(res) == 1, b, 'one-pattern', 'split_words compiles one pattern', 'found %d' % len(res))
